@@ -51,11 +51,11 @@ func GenReacquirePlan(t *rapid.T, profile string) *Plan {
 	return p
 }
 
-// MixReacquire returns gen, except that one case in seven comes from each of GenReacquirePlan,
-// GenRestartInFlightPlan and GenStragglerPlan.
+// MixReacquire returns gen, except that one case in eight comes from each of GenReacquirePlan,
+// GenRestartInFlightPlan, GenStragglerPlan and GenStopAfterUnnoticedLossPlan.
 func MixReacquire(profile string, gen func(*rapid.T) *Plan) func(*rapid.T) *Plan {
 	return func(t *rapid.T) *Plan {
-		k := rapid.IntRange(0, 6).Draw(t, "shape")
+		k := rapid.IntRange(0, 7).Draw(t, "shape")
 		switch os.Getenv("VERIF_ONLY_SHAPE") { // (development aid)
 		case "reacquire":
 			k = 0
@@ -63,6 +63,8 @@ func MixReacquire(profile string, gen func(*rapid.T) *Plan) func(*rapid.T) *Plan
 			k = 1
 		case "straggler":
 			k = 2
+		case "unnoticed-loss":
+			k = 3
 		}
 		switch k {
 		case 0:
@@ -71,6 +73,8 @@ func MixReacquire(profile string, gen func(*rapid.T) *Plan) func(*rapid.T) *Plan
 			return GenRestartInFlightPlan(t, profile)
 		case 2:
 			return GenStragglerPlan(t, profile)
+		case 3:
+			return GenStopAfterUnnoticedLossPlan(t, profile)
 		}
 		return gen(t)
 	}
@@ -142,4 +146,63 @@ func MixShapes(gen func(*rapid.T) *Plan, shapes ...func(*rapid.T) *Plan) func(*r
 		}
 		return gen(t)
 	}
+}
+
+// GenStopAfterUnnoticedLossPlan builds the shape "a leader shuts down gracefully just after it has lost its
+// record without having noticed": a higher-priority instance takes the record over (or the record is
+// deleted from outside and a successor creates it) and, before the old leader's next heartbeat finds out,
+// the old leader is stopped - usually with DeleteKey. Its OnPromote callback takes a while to wind down, so
+// the stop call spends time waiting for the run's goroutines, and the application may already start the
+// election again (from another goroutine) during that wait. Whatever the old leader's shutdown deletes must
+// be its own record, never the successor's.
+func GenStopAfterUnnoticedLossPlan(t *rapid.T, profile string) *Plan {
+	h := rapid.SampledFrom([]time.Duration{300 * time.Millisecond, time.Second, 3 * time.Second}).Draw(t, "H")
+	p := &Plan{Profile: profile + "/stop-after-unnoticed-loss", H: h, TTL: 3 * h, SnapEvery: odd(h/3 + 31*time.Microsecond)}
+	p.PlainDelete = rapid.IntRange(0, 4).Draw(t, "plain_delete") == 0
+	a := Inst{ID: "A", Group: "g", Priority: 1, Takeover: rapid.Bool().Draw(t, "a_takeover"), VI: 3 * h, Lat: []time.Duration{1, 3},
+		Promote: rapid.SampledFrom([]int{1, 1, 2, 0}).Draw(t, "promote")}
+	if a.Promote != 0 {
+		a.PromoteLinger = rapid.SampledFrom([]time.Duration{0, time.Millisecond, h / 2, 2 * time.Second}).Draw(t, "linger")
+	}
+	if rapid.IntRange(0, 2).Draw(t, "dd") == 0 {
+		a.DemoteDur = rapid.SampledFrom([]time.Duration{time.Millisecond, 50 * time.Millisecond}).Draw(t, "demote_dur")
+	}
+	b := Inst{ID: "B", Group: "g", Priority: 2, Takeover: true, Lat: []time.Duration{3, 5}, Promote: rapid.SampledFrom([]int{0, 1}).Draw(t, "b_promote")}
+	p.Instances = []Inst{a, b}
+	p.Timeline = []Action{{At: 1, Kind: ActStart, Inst: 0}}
+	tB := odd(h + time.Duration(rapid.Int64Range(0, int64(2*h)).Draw(t, "t_b")))
+	switch rapid.IntRange(0, 2).Draw(t, "how") {
+	case 0, 1:
+		// B arrives and preempts
+		p.Timeline = append(p.Timeline, Action{At: tB, Kind: ActStart, Inst: 1})
+	default:
+		// B is there already (no takeover: same priority as A would not do, so it simply is disabled); the
+		// record is deleted from outside and B's watcher makes it the successor
+		p.Instances[1].Takeover, p.Instances[1].Priority = false, 0
+		p.Timeline = append(p.Timeline, Action{At: odd(h / 3), Kind: ActStart, Inst: 1}, Action{At: tB, Kind: ActExtDelete, Inst: -1, Key: "g"})
+	}
+	// A is stopped within one heartbeat interval of the loss
+	ts := tB + odd(time.Duration(rapid.Int64Range(20, int64(h)).Draw(t, "stop_after")))
+	stop := Action{At: ts, Kind: ActStopCtx, Inst: 0, DeleteKey: rapid.IntRange(0, 5).Draw(t, "delete_key") > 0, WaitForDemote: rapid.Bool().Draw(t, "wait_for_demote")}
+	switch rapid.IntRange(0, 3).Draw(t, "stop_timeout") {
+	case 0:
+		stop.CtxMode, stop.CtxTimeout = "deadline", 3*time.Second+1
+	case 1:
+		stop.Timeout = 6*time.Second + 1
+	}
+	p.Timeline = append(p.Timeline, stop)
+	switch rapid.IntRange(0, 3).Draw(t, "restart") {
+	case 0:
+	case 1:
+		p.Timeline = append(p.Timeline, Action{At: ts + odd(time.Duration(rapid.Int64Range(int64(3*time.Second), int64(3*time.Second+3*h)).Draw(t, "restart_after"))), Kind: ActStart, Inst: 0})
+	default:
+		// restarted while the stop call may still be waiting
+		p.Timeline = append(p.Timeline, Action{At: ts + odd(rapid.SampledFrom([]time.Duration{1, 1001, time.Millisecond, h / 4, time.Second}).Draw(t, "overlap_after")), Kind: ActStart, Inst: 0, Overlap: true})
+	}
+	p.Horizon = ts + 8*h + p.TTL + 3*time.Second
+	for i := 0; i < rapid.IntRange(0, 3).Draw(t, "ndice"); i++ {
+		p.Dice = append(p.Dice, rapid.SampledFrom([]float64{0, 0.999999, 0.5}).Draw(t, "dice"))
+	}
+	sortTimeline(p)
+	return p
 }
